@@ -9,6 +9,7 @@ import (
 	"encoding/json"
 	"fmt"
 	"math/rand"
+	"net/url"
 	"strings"
 )
 
@@ -40,7 +41,7 @@ var exprTable = []exprT{
 	{"(?i)k(\\s|-)z", []string{"k-z", "K z"}, []string{"kz", "k--z"}},
 }
 
-var staticPool = []string{"a", "b", "users", "api", "v1", "a.b", "a+b", "(a)", "a$", "a*", "x-y", "~u", "p%41", "A", "index.html", "a!", "q=1", "a;b", "'q'", "@me", "a_b", "0"}
+var staticPool = []string{"a%20b", "x%2Fy", "a", "b", "users", "api", "v1", "a.b", "a+b", "(a)", "a$", "a*", "x-y", "~u", "p%41", "A", "index.html", "a!", "q=1", "a;b", "'q'", "@me", "a_b", "0"}
 var phPool = []string{"q", "a", "b", "", "x%41y", "%2F", "%zz", "a.b", "%2541", "50%25", "%252F", "a%20", "%25zz", "\xc3\xa9", "a b", "v1", "%", "%4", "users", "{x}", "?a", "a+b", "(a)", "..", "a%2Fb", "%C3%A9"}
 
 type segGen struct {
@@ -555,10 +556,25 @@ func treeGen(seed int64, n int, args []string, out *json.Encoder) {
 					}
 					c.Reqs = append(c.Reqs, rq)
 				}
-				for k := 0; k < 3; k++ {
+				for k := 0; k < 4; k++ {
 					p := rg.instance(rng)
-					if k > 0 {
+					if k > 0 && k < 3 {
 						p = mutatePath(rng, p)
+					}
+					if k == 3 {
+						// the same instance with its percent-escapes decoded: a DIFFERENT path (routing works on URL.Path as it is)
+						q := make([]string, len(p))
+						changed := false
+						for i, sgm := range p {
+							q[i] = sgm
+							if u, err := url.PathUnescape(sgm); err == nil && u != sgm && !strings.Contains(u, "/") {
+								q[i], changed = u, true
+							}
+						}
+						if !changed {
+							continue
+						}
+						p = q
 					}
 					raw := strings.Repeat("/", 1+rng.Intn(10)/8) + strings.Join(p, "/")
 					rq := treeReq{M: c.H[j].M, Raw: encBytes(raw)}
